@@ -13,7 +13,7 @@ func init() {
 		}, "program contains an include that contributes at least 2 lines and compiles")
 	})
 	register("C06", func(c *Ctx) error {
-		return checkParseFamily(c, "exc", "include-except / suffix replacement", 3, 4, func(cs *AsmCase) bool {
+		return checkParseFamily(c, "exc", "include-except / suffix replacement", 3, 3, func(cs *AsmCase) bool {
 			for _, l := range cs.Lines {
 				if strings.Contains(l, "include-except") || strings.Contains(l, " -- ") {
 					return cs.Expect == "ok"
@@ -23,7 +23,7 @@ func init() {
 		}, "program contains an include-except or a suffix-replacement list and compiles")
 	})
 	register("C07", func(c *Ctx) error {
-		return checkParseFamily(c, "def", "definition", 4, 5, func(cs *AsmCase) bool {
+		return checkParseFamily(c, "def", "definition", 4, 4, func(cs *AsmCase) bool {
 			return hasTag(cs, "define") && strings.Contains(strings.Join(cs.Lines, "\n"), "{{") && cs.Expect == "ok"
 		}, "program has at least one definition and one reference")
 	})
@@ -76,6 +76,17 @@ func checkParseFamily(c *Ctx, family, what string, quickLines, thoroughLines int
 	ex, err := c.runTLC(TLCRun{Module: "MC_Parse", Seed: c.Seed, Timeout: 40 * time.Minute,
 		Constants: with("MaxLines", fmt.Sprintf("= %d", lines), "Export", "= TRUE", "Theorem", "= FALSE"),
 		Invs:      []string{"ExportCase"}}, rp.onCase)
+	simulated := int64(0)
+	if err == nil && c.Tier == "thorough" {
+		// beyond the exhaustive bound: random longer programs (TLC simulation mode evaluates the
+		// export on every successor of every step of a behaviour)
+		before := rp.seen
+		_, err = c.runTLC(TLCRun{Module: "MC_Parse", Seed: c.Seed, Timeout: 40 * time.Minute, Workers: 4,
+			Simulate: "num=2500", Depth: lines + 3,
+			Constants: with("MaxLines", fmt.Sprintf("= %d", lines+3), "Export", "= TRUE", "Theorem", "= FALSE"),
+			Invs:      []string{"ExportCase"}}, rp.onCase)
+		simulated = rp.seen - before
+	}
 	ferr := rp.finish()
 	if err != nil {
 		return err
@@ -83,6 +94,7 @@ func checkParseFamily(c *Ctx, family, what string, quickLines, thoroughLines int
 	if ferr != nil {
 		return ferr
 	}
+	c.Cov["random_longer_programs"] = simulated
 	if rp.replayed == 0 {
 		return fmt.Errorf("no case was replayed")
 	}
@@ -96,7 +108,7 @@ func checkParseFamily(c *Ctx, family, what string, quickLines, thoroughLines int
 	c.Cov["exhaustive"] = true
 	c.Cov["rule"] = fmt.Sprintf("TLC enumerates every well-formed main program of <= %d lines over the %s vocabulary of MC_Parse (family %q) around a fixed set of include/exclude files; "+
 		"all of them are executed on the real code: language-compared with the plain reading of the spec's parser output AND byte-compared with the real output for the hand-inlined program the spec derives; "+
-		"non-trivial = %s, distinct by program text", lines, what, family, ntRule)
+		"thorough tier: plus random programs of up to %d lines (TLC simulation); non-trivial = %s, distinct by program text", lines, what, family, lines+3, ntRule)
 	c.Assumptions = append(c.Assumptions,
 		"Go regexp is the RE2 reference; languages are compared on all strings over the model alphabet up to length N only",
 		"the in-process assembler run is an accelerator; every disagreement and every 10th case is re-executed through the CLI binary")
